@@ -7,9 +7,10 @@ Per run: solve with the real library, export what each accessor returns (exactly
 A VIOLATION is reported only when the oracle certifies that an accessor's disc contains NO root
 (count upper bound 0), or when the multiprecision accessor does not return the stored value.
 acc_ok failures that the oracle cannot judge are counted, not reported."""
-import os, sys, json, collections
+import os, sys, json, collections, random, time
 from fractions import Fraction as Fr
 import vf, solve as S, polygen as G, e2e
+import c16_access as ACC
 
 PH = {1: "float", 2: "dpe", 3: "mp"}
 
@@ -29,11 +30,35 @@ def accessor_pairs(res, i):
     return out
 
 
+ACCESS_TRUSTED = ["GMP's mpf_set_prec/mpf_set/mpf_get_d/mpf_set_d/mpf_mul_2exp/mpf_set_prec_raw and libm's frexp/ldexp/sqrt are modelled from their documentation "
+                  "(limb truncation, truncation to binary64, one rounding to nearest); the bit-for-bit comparison of every accessor output on every run is what ties them",
+                  "harness/c16_access.c writes the state through the private API and prints IEEE bits / limbs; ocaml/access_driver.ml; checks/c16_access.py "
+                  "evaluates acc_ok in exact integer arithmetic and cross-checks it with the extracted acc_ok (bin/accq)"]
+
+
+def access_stage(ctx, env, replay_line=None):
+    """function-level tie: states written into a context, every accessor called (harness/c16_access.c), compared bit for bit
+    with the extracted as-coded model (bin/access) and judged by acc_ok against the stored pair"""
+    t0 = time.process_time(); w0 = time.time()
+    hb = ctx.compile_harness(["c16_access.c"], "c16_access", mode="san")
+    rng = random.Random(ctx.seed * 1000003 + 16)
+    st, samples, ev, distinct = ACC.run_stage(ctx, rng, hb, env, vf, ctx.pick(3000, 30000), replay_line=replay_line)
+    ctx.log("access stage: %d states through every accessor, %d judged pairs ok, %.1fs wall" % (ev, len(distinct), time.time() - w0))
+    return st, samples, ev, distinct
+
+
 def run(ctx):
     ctx.prove()
     ctx.proof_violation_if_broken()
-    binary = ctx.compile_harness(["vf_solve.c"], "vf_solve", mode="san")
     env = ctx.san_env()
+    if ctx.replay:
+        rp0 = json.load(open(ctx.replay))
+        if rp0.get("stage") == "access":
+            st, samples, ev, distinct = access_stage(ctx, env, replay_line=rp0["line"])
+            return ctx.finish("proof", {"evaluations": ev, "distinct_nontrivial": len(distinct), "rule": "replay of one hand-written state",
+                                        "histogram": {"access:" + k: v for k, v in st.items()}, "samples": samples, "trusted_base": ACCESS_TRUSTED}, [])
+    acc_stats, acc_samples, acc_ev, acc_distinct = (collections.Counter(), [], 0, set()) if ctx.replay else access_stage(ctx, env)
+    binary = ctx.compile_harness(["vf_solve.c"], "vf_solve", mode="san")
     ncases = ctx.pick(30, 300)
     cases = G.standard_cases(ctx.rng, ncases, maxdeg=ctx.pick(10, 20))
     configs = [["-a", "u", "-G", "a", "-o", "40"], ["-a", "s", "-G", "a", "-o", "30"], ["-a", "s", "-G", "i"],
@@ -182,13 +207,16 @@ def run(ctx):
                 samples.append({"case": key[0], "opts": list(key[1]), "root": i, "accessor": name, "phase": ph, "acc_ok": ok,
                                 "disc": e2e.fdisc(d), "oracle_count": [v[0], v[1]] if v else None})
     e2e.close_records(recs)
-    cov = {"evaluations": evaluations, "distinct_nontrivial": len(nontrivial),
-           "rule": "one evaluation = one (solve, root, accessor pair); non-trivial+distinct = pairs for which the oracle certified a root inside the handed-out disc",
+    stats.update({"access:" + k: v for k, v in acc_stats.items()})
+    samples = acc_samples[:6] + samples
+    cov = {"evaluations": evaluations + acc_ev, "distinct_nontrivial": len(nontrivial) + len(acc_distinct),
+           "access_states": acc_ev, "access_pairs_judged_ok": len(acc_distinct),
+           "rule": "one evaluation = one (solve, root, accessor pair) or one hand-written state sent through every accessor and the extracted model; non-trivial+distinct = pairs for which the oracle certified a root inside the handed-out disc, plus (state, accessor pair) combinations whose pair satisfied acc_ok against the stored pair",
            "programs": len(recs), "disagreements_checked": sum(v for k, v in stats.items() if k.startswith("acc_ok=0")),
            "histogram": dict(stats), "solves": len(recs), "certified_inputs": sum(1 for r in recs if r["oracle"] is not None),
            "why_not_certified": dict(collections.Counter(r["why"].split(":")[0] for r in recs if r["oracle"] is None)),
            "class_histogram": dict(collections.Counter(r["case"]["cls"] for r in recs)), "samples": samples,
            "trusted_base": ["Coq kernel; C16 theorems use the stdlib real-number axioms (sig_forall_dec, sig_not_dec, functional_extensionality_dep) via Reals",
                             "root oracle bin/cert (Properties_ORACLE.v, axiom-free) judges every reported violation",
-                            "extraction ExtrOcamlBasic+ExtrOcamlNativeString; ocaml/accq_driver.ml; harness/vf_solve.c; lib/solve.py"]}
+                            "extraction ExtrOcamlBasic+ExtrOcamlNativeString; ocaml/accq_driver.ml; harness/vf_solve.c; lib/solve.py"] + ACCESS_TRUSTED}
     return ctx.finish("proof", cov, ["solver internals are not modelled: the accessors' outputs are judged", "undecided oracle answers are counted, never reported"])
